@@ -104,6 +104,23 @@ fn take_string(r: ffi::SerializingResult) -> Result<String, String> {
 }
 
 fn fill_ctx(arena: &mut Arena, cx: &mut ffi::ExecutionContext<'_>, r: &Recipe, c: &MCtx, how: usize, case: &Value) -> CaseResult {
+    if how == 2 {
+        // the whole context as one JSON document; the buffer is only lent for the call
+        let mut o = serde_json::Map::new();
+        for (f, v) in r.fields.iter().zip(&c.vals) {
+            if let Some(v) = v {
+                o.insert(f.name.clone(), v.to_ctx_json());
+            }
+        }
+        let mut buf = serde_json::to_vec(&Value::Object(o)).unwrap();
+        let ok = ffi::wirefilter_deserialize_json_to_execution_context(cx, buf.as_ptr(), buf.len());
+        buf.iter_mut().for_each(|b| *b = b'#');
+        drop(buf);
+        if !ok {
+            return Err(Fail::new("c-api-setter-rejected-valid-value", format!("deserialize_json failed: {:?}", last_error().map(|e| String::from_utf8_lossy(&e.0).to_string())), case.clone()));
+        }
+        return Ok(());
+    }
     for (f, v) in r.fields.iter().zip(&c.vals) {
         let Some(v) = v else { continue };
         let np = f.name.as_ptr().cast();
@@ -120,8 +137,10 @@ fn fill_ctx(arena: &mut Arena, cx: &mut ffi::ExecutionContext<'_>, r: &Recipe, c
             (MVal::Ip(std::net::IpAddr::V4(a)), 0) => ffi::wirefilter_add_ipv4_value_to_execution_context(cx, np, nl, &a.octets()),
             (MVal::Ip(std::net::IpAddr::V6(a)), 0) => ffi::wirefilter_add_ipv6_value_to_execution_context(cx, np, nl, &a.octets()),
             (v, _) => {
-                let js = serde_json::to_string(&v.to_ctx_json()).unwrap();
-                ffi::wirefilter_add_json_value_to_execution_context(cx, np, nl, js.as_ptr(), js.len())
+                let mut js = serde_json::to_vec(&v.to_ctx_json()).unwrap();
+                let ok = ffi::wirefilter_add_json_value_to_execution_context(cx, np, nl, js.as_ptr(), js.len());
+                js.iter_mut().for_each(|b| *b = b'#');
+                ok
             }
         };
         if !ok {
@@ -134,7 +153,7 @@ fn fill_ctx(arena: &mut Arena, cx: &mut ffi::ExecutionContext<'_>, r: &Recipe, c
 fn diff_case(ch: &mut Choices<'_>, st: &mut Stats) -> CaseResult {
     let mut arena = Arena::new();
     let broken = ch.chance(1, 3);
-    let how = ch.draw(2);
+    let how = ch.draw(3);
     let mut gen_ = Gen::new(ch, GenCfg { max_depth: 3, ..GenCfg::full() });
     let expr = gen_.gen_bool(3);
     gen_.finish_scheme();
